@@ -51,6 +51,8 @@ struct env_cfg {
     int only_task;           /* restrict I/O deviations to this task index (-1 = all) */
     int stall_until_read;    /* a write stall ends only after the peer has read what was written (flow control);
                                 only for scenarios in which every endpoint keeps reading while it waits to write */
+    int fault_transient;     /* offer, at send() of a library-owned emulated TCP fd, the answer -1/ENOBUFS or -1/ENOMEM
+                                with the connection itself unaffected (send(2): kernel out of buffer memory) */
     int connpend_free;       /* the connect-latency alternative costs no deviation (C11: the life point
                                 "TCP handshake pending" is part of the enumerated history, not a deviation) */
 };
@@ -90,6 +92,7 @@ int  env_lib_fds_open(void);             /* descriptors created inside API calls
 int  env_pending_connects(void);
 int  env_stalled_count(void);
 int  env_epoll_interest(int epfd, int fd); /* requested event mask or -1 */
+int  env_transient_faults(void);         /* number of fault_transient answers given so far */
 int  env_data_calls(void);               /* number of data-path calls on emulated TCP so far */
 /* the emulated-TCP descriptor that carries the connection of peer `fd` etc. */
 int  env_last_tcp_fd_created(void);
